@@ -34,7 +34,7 @@ def props_for(path):
                 (name == 'number_arrivals' and 'curve::Curve ' in path)):
             p.add('C13')
         if 'poisson' in path:
-            p = set()    # C15 is not applicable: floating point
+            p = {'C15'}  # only the narrow clause "computes the documented formula as written" (floating point is not decided)
     return sorted(p)
 
 def main():
